@@ -1,6 +1,7 @@
 import GoHeader.Store.TailRace
 import GoHeader.Oracle.Common
 import GoHeader.Store.Conc
+import GoHeader.Store.HeightSub
 import GoHeader.Oracle.Store
 namespace GoHeader.Oracle
 open GoHeader GoHeader.Conc
@@ -21,8 +22,14 @@ def rpcTag : RPc → String
 def evalConc (prop : String) (ins outs : List String) : Verdict :=
   match kv? ins "kind" with
   | some "gated" =>
+    -- a reader parked on a store without a head: the model releases it with the first batch
+    let noHead := kv? ins "where" == some "empty-store" || kv? ins "where" == some "parked-then-wiped"
+    let modelStuck := match kvNat? ins "target" with
+      | some t => noHead && (HeightSub.firstBatch { height := 0, subs := [t] } t t).subs.contains t
+      | none => false
+    if modelStuck then .bad "HeightSub model keeps the waiter parked" else
     match kv? outs "result" with
-    | some "found" => .ok "gated"
+    | some "found" => .ok (if noHead then "gated-nohead" else "gated")
     | some r => .prop "c12_no_lost_wakeup" s!"gated replay: {" ".intercalate ins} => {r}"
     | none => .bad "gated"
   | some "tailrace" =>
